@@ -209,10 +209,23 @@ struct Request
 };
 
 static void nullOutput(const char*, int) {}
+// added for C11 (REVIEW_C item 6), only with VERIF_LOG_CLOBBER=1 in the environment: the logger's output function
+// does what a sink on a broken pipe does - a write(2) that fails with EPIPE - so errno is no longer what the caller
+// of LOG_* left.  A test of errno placed after a log statement then sees EPIPE.  Unset: behaviour unchanged.
+static int g_brokenPipe = -1;
+static void clobberOutput(const char*, int) { char c = 'x'; if (__real_write(g_brokenPipe, &c, 1) >= 0) abort(); }
 
 int main()
 {
   Logger::setOutput(nullOutput);
+  if (::getenv("VERIF_LOG_CLOBBER"))
+  {
+    int pfd[2];
+    if (::pipe2(pfd, O_CLOEXEC) != 0) { perror("pipe2"); return 3; }
+    ::close(pfd[0]);
+    g_brokenPipe = pfd[1];
+    Logger::setOutput(clobberOutput);
+  }
   sem_init(&g_reached, 0, 0);
   EventLoop loop;
   TcpConnectionPtr conn;
